@@ -1,7 +1,6 @@
 /-
   GenAgreeFx.lean — agreement of the GENERATED layer (KiraModel/Gen.lean, KiraModel/GenFn.lean; regenerated from
-  the Rust source by tools/gen_lean.py on every check run) with the hand-written model of the effects and of
-  spatial tracks.  See Proofs/GenAgree.lean for how these theorems are used.  Imports the model only.
+  the Rust source by tools/gen_lean.py on every check run) with the hand-written model of the effects.  See Proofs/GenAgree.lean for how these theorems are used.  Imports the model only.
 -/
 import KiraModel.Model.Effects.Filter
 import KiraModel.Model.Effects.EqFilter
@@ -9,7 +8,6 @@ import KiraModel.Model.Effects.Compressor
 import KiraModel.Model.Effects.Distortion
 import KiraModel.Model.Effects.VolumeControl
 import KiraModel.Model.Effects.PanningControl
-import KiraModel.Model.Spatial
 
 set_option linter.unusedSectionVars false
 
@@ -62,12 +60,6 @@ theorem Gen.distortionDefaults_eq (kind : DistortionKind) (d m : Value α α) :
 theorem Gen.volumePanningControlDefaults_eq (v : Value α α) :
     (VolumeControl.new v).volume = Parameter.new v Gen.volumeControlDefault
     ∧ (PanningControl.new v).panning = Parameter.new v Gen.panningControlDefault := ⟨rfl, rfl⟩
-
-/-! ### spatial tracks -/
-
-/-- `EAR_DISTANCE`, `EAR_ANGLE_FROM_HEAD` of track/sub.rs; the default spatialization strength -/
-theorem Gen.earConstants_eq : (Gen.earDistance : α) = earDistance ∧ (Gen.earAngleFromHead : α) = earAngle
-    ∧ KOps.r32 (Gen.spatialDefaultSpatializationStrength : α) = lit32 (0.75 : α) := ⟨rfl, rfl, rfl⟩
 
 /-! ### enum declarations -/
 
